@@ -431,6 +431,7 @@ func (e *Engine) NewFuncGen(fn *ssa.Function, c *Contract) *FuncGen {
 	g.posts = map[string]*postParts{}
 	g.bytesOf = map[string]string{}
 	g.localAllocs = map[*ssa.Alloc]bool{}
+	g.mapRefKind = map[string]string{}
 	return g
 }
 
